@@ -11,4 +11,6 @@ node --expose-internals -e "require('internal/deps/acorn/acorn/dist/acorn')"
 # the go/ssa symbolic interpreter (x/tools v0.29.0 from the module cache, offline)
 (cd engine/gosym && go build -o /dev/null ./cmd/gosym)
 mkdir -p evidence
+# engine validation: the symbolic Go interpreter against native Go on the vectors of engine/gosym/selftest
+python3 tools/gosym_selftest.py
 echo "setup ok"
